@@ -114,6 +114,15 @@ func ruleInlineKeepsSubQuery(p *Prog, r *Res, rule string) {
 			if isSub(a) {
 				hasSub = true
 			}
+			// a function value that is handed over and reads the sub-query: the renaming callback
+			if lit, isLit := ast.Unparen(a).(*ast.FuncLit); isLit {
+				ast.Inspect(lit.Body, func(y ast.Node) bool {
+					if e, isExpr := y.(ast.Expr); isExpr && isSub(e) {
+						hasSub = true
+					}
+					return !hasSub
+				})
+			}
 			if mentionsInlined(a) {
 				hasSet = true
 			}
